@@ -6,5 +6,6 @@ CONSTANTS
   Bug = "none"
   Emit = TRUE
   Samples = 500
+  EmitMod = 1
 INVARIANTS InvVisit EmitInv
 CHECK_DEADLOCK FALSE
